@@ -322,7 +322,7 @@ Proof.
   cbn [vtop] in H. unfold vfields in H.
   destruct (all_some (fun c0 => named c0 (vfield reg c0 (norm_kvs kvs))) ch) as [f'|] eqn:A; [|discriminate].
   destruct (first_fail vs ch f') eqn:FF; [discriminate|]. inversion H; subst gov f'.
-  pose proof (first_fail_devmode vs ch f Hin FF) as DM. unfold v_devmode in DM. rewrite Hdm in DM.
+  pose proof (first_fail_devmode vs ch f Hin FF) as DM. unfold v_devmode in DM. rewrite Hdm in DM. cbn [truthy] in DM.
   destruct (check_dev ch f) eqn:C; [|discriminate].
   exact (check_dev_sound path ch ch f l v C L D V).
 Qed.
@@ -334,7 +334,8 @@ Lemma run_vid_developer : forall v gov f, run_vid v gov f = Some RDeveloper ->
 Proof.
   intros v gov f H. destruct v; cbn [run_vid] in H.
   - split; [reflexivity|]. unfold v_devmode in H.
-    destruct (get_leaf "developer_mode" f) as [[| [] | | | | |]|]; try discriminate.
+    destruct (get_leaf "developer_mode" f) as [x|]; [|discriminate].
+    destruct (truthy x); [discriminate|].
     destruct (check_dev gov f); [discriminate|reflexivity].
   - exfalso. unfold v_alpha_final in H.
     repeat match type of H with context [match ?x with _ => _ end] => destruct x end; discriminate.
@@ -504,4 +505,4 @@ Qed.
 (* "unless developer mode is explicit": with developer_mode = True the lock validator passes whatever the fields hold *)
 Lemma explicit_developer_mode_unlocks_l : forall gov f,
   get_leaf "developer_mode" f = Some (JBool true) -> run_vid VDevMode gov f = None.
-Proof. intros gov f H. cbn [run_vid]. unfold v_devmode. now rewrite H. Qed.
+Proof. intros gov f H. cbn [run_vid]. unfold v_devmode. rewrite H. reflexivity. Qed.
